@@ -171,13 +171,15 @@ pub struct WriteCase {
     pub bidi: bool,
     pub frames: Vec<FrameSpec>,
     pub double_send: bool,
+    /// the last framed write is polled once only (a send future that was dropped: timeout, select!) before the stream is finished
+    pub early_finish: bool,
 }
 
 fn hfault(m: impl Into<String>) -> Failure {
     Failure::fault(m)
 }
 
-async fn write_case(fx: &Fixture, c: &WriteCase) -> Result<Result<(bool, bool), String>, Failure> {
+async fn write_case(fx: &Fixture, c: &WriteCase) -> Result<Result<(bool, bool, bool), String>, Failure> {
     let (cc, sc) = connect(fx, &c.windows, None).await.map_err(hfault)?;
     let mut conn = h3_quinn::Connection::new(cc.clone());
     // everything handed over is a pure function of the case: the complete expected wire image is known up front,
@@ -193,6 +195,8 @@ async fn write_case(fx: &Fixture, c: &WriteCase) -> Result<Result<(bool, bool), 
     let expected = Arc::new(expected);
     let mut refused = false;
     let mut used_poll_send = false;
+    let mut finish_with_write_pending = false;
+    let last_framed = c.frames.iter().rposition(|f| !matches!(f, FrameSpec::Raw(_))).filter(|k| c.early_finish && *k + 1 == c.frames.len());
     // reader on the raw quinn side
     let bidi = c.bidi;
     let exp = expected.clone();
@@ -278,16 +282,40 @@ async fn write_case(fx: &Fixture, c: &WriteCase) -> Result<Result<(bool, bool), 
                             Ok(()) => return Err("a second send_data was accepted while the first write was unfinished".into()),
                         }
                     }
+                    if last_framed == Some(k) {
+                        // one poll, then the future that drove the write is gone
+                        let waker = futures_util::task::noop_waker();
+                        let mut cx = std::task::Context::from_waker(&waker);
+                        match on!(&mut s, x => x.poll_ready(&mut cx)) {
+                            Poll::Pending => finish_with_write_pending = true,
+                            Poll::Ready(Ok(())) => {}
+                            Poll::Ready(Err(e)) => return Err(format!("poll_ready failed: {e}")),
+                        }
+                        break;
+                    }
                     if let Err(e) = on!(&mut s, x => std::future::poll_fn(|cx| x.poll_ready(cx)).await) {
                         return Err(format!("poll_ready failed: {e}"));
                     }
                 }
             }
         }
-        if let Err(e) = on!(&mut s, x => std::future::poll_fn(|cx| x.poll_finish(cx)).await) {
-            return Err(format!("poll_finish failed: {e}"));
+        // the buffer was handed over: it reaches the peer complete, whether finishing flushes it first or refuses until the
+        // application has driven the write to its end (both are accepted; a clean end of the stream inside it is not - the
+        // monitor on the peer's side decides)
+        let mut retried = false;
+        loop {
+            match on!(&mut s, x => std::future::poll_fn(|cx| x.poll_finish(cx)).await) {
+                Ok(()) => break,
+                Err(_) if finish_with_write_pending && !retried => {
+                    retried = true;
+                    if let Err(e) = on!(&mut s, x => std::future::poll_fn(|cx| x.poll_ready(cx)).await) {
+                        return Err(format!("poll_ready failed: {e}"));
+                    }
+                }
+                Err(e) => return Err(format!("poll_finish failed: {e}")),
+            }
         }
-        Ok::<_, String>((s, refused, used_poll_send))
+        Ok::<_, String>((s, refused, used_poll_send, finish_with_write_pending))
     };
     tokio::pin!(writer);
     // the monitor's verdict wins: a byte the peer should never have seen decides the case even if the writer is stuck
@@ -308,7 +336,7 @@ async fn write_case(fx: &Fixture, c: &WriteCase) -> Result<Result<(bool, bool), 
         Ok(Err(e)) => return Ok(Err(e)),
         Err(e) => return Err(hfault(format!("reader task: {e}"))),
     };
-    let (s, refused, used_poll_send) = match wrote {
+    let (s, refused, used_poll_send, fwp) = match wrote {
         Some(x) => x,
         None => match writer.await {
             Ok(x) => x,
@@ -318,7 +346,7 @@ async fn write_case(fx: &Fixture, c: &WriteCase) -> Result<Result<(bool, bool), 
     drop(s);
     cc.close(0u32.into(), b"done");
     drop(sc);
-    Ok(Ok((refused, used_poll_send)))
+    Ok(Ok((refused, used_poll_send, fwp)))
 }
 
 fn block<T>(f: impl std::future::Future<Output = T>, fx: &Fixture) -> Result<T, Failure> {
@@ -326,7 +354,7 @@ fn block<T>(f: impl std::future::Future<Output = T>, fx: &Fixture) -> Result<T, 
 }
 
 fn case_json_write(c: &WriteCase) -> Value {
-    json!({"kind": "write", "windows": [c.windows.stream_rx, c.windows.conn_rx, c.windows.send], "bidi": c.bidi, "double_send": c.double_send, "frames": c.frames.iter().map(|f| format!("{f:?}")).collect::<Vec<_>>()})
+    json!({"kind": "write", "windows": [c.windows.stream_rx, c.windows.conn_rx, c.windows.send], "bidi": c.bidi, "double_send": c.double_send, "early_finish": c.early_finish, "frames": c.frames.iter().map(|f| format!("{f:?}")).collect::<Vec<_>>()})
 }
 
 fn run_write(c: &WriteCase, ctx: &mut Ctx) -> Verdict {
@@ -336,7 +364,10 @@ fn run_write(c: &WriteCase, ctx: &mut Ctx) -> Verdict {
     }
     let r = with_fixture(|fx| block(write_case(fx, c), fx)).map_err(Failure::fault)?;
     match r?? {
-        Ok((refused, raw)) => {
+        Ok((refused, raw, fwp)) => {
+            if fwp {
+                ctx.class("finish_with_write_pending");
+            }
             if refused {
                 ctx.class("second_send_refused");
             }
@@ -756,9 +787,31 @@ pub enum ErrRow {
     CloseOnOpen,
     /// the same after the idle timeout
     TimeoutOnOpen,
+    /// the other direction (what the adapter of the *peer* does with the code handed to it - with an adapter on both ends the
+    /// code "the peer" supplied is the one given to these calls): stop_sending(code) arrives as STOP_SENDING(code) at a raw quinn stream
+    OwnStop,
+    /// the same with a read in flight when stop_sending is called (the stream is owned by the read future then)
+    OwnStopDeferred,
+    /// reset(code) arrives as RESET_STREAM(code)
+    OwnReset,
+    /// close(code, reason) arrives as CONNECTION_CLOSE(code, reason)
+    OwnClose,
 }
 
-const ROWS: [ErrRow; 8] = [ErrRow::CloseOnAccept, ErrRow::CloseOnRead, ErrRow::CloseOnWrite, ErrRow::Timeout, ErrRow::ResetOnRead, ErrRow::StopOnWrite, ErrRow::CloseOnOpen, ErrRow::TimeoutOnOpen];
+const ROWS: [ErrRow; 12] = [
+    ErrRow::CloseOnAccept,
+    ErrRow::CloseOnRead,
+    ErrRow::CloseOnWrite,
+    ErrRow::Timeout,
+    ErrRow::ResetOnRead,
+    ErrRow::StopOnWrite,
+    ErrRow::CloseOnOpen,
+    ErrRow::TimeoutOnOpen,
+    ErrRow::OwnStop,
+    ErrRow::OwnStopDeferred,
+    ErrRow::OwnReset,
+    ErrRow::OwnClose,
+];
 
 /// The condition has been reported once; the trait allows asking again (select loops, h3's own later calls do): that must
 /// not panic, must not report a different code, and the identifier stays what it was. What exactly a later call returns
@@ -905,6 +958,69 @@ async fn err_case(fx: &Fixture, row: ErrRow, code: u64) -> Result<Result<(), Str
                     }
                     out
                 }
+                ErrRow::OwnStop | ErrRow::OwnStopDeferred => {
+                    // drain what was sent so far, so that a read in flight is really waiting
+                    let mut five = [0u8; 5 + 2];
+                    let _ = prx.read_exact(&mut five).await;
+                    if row == ErrRow::OwnStopDeferred {
+                        let waker = futures_util::task::noop_waker();
+                        let mut cx = std::task::Context::from_waker(&waker);
+                        if !matches!(bi.poll_data(&mut cx), Poll::Pending) {
+                            return Err(hfault("the read was expected to wait"));
+                        }
+                    }
+                    bi.stop_sending(code);
+                    if row == ErrRow::OwnStopDeferred {
+                        // the read in flight completes with the peer's next bytes; the stop takes effect then at the latest
+                        let _ = ptx.write_all(b"x").await;
+                        let _ = std::future::poll_fn(|cx| bi.poll_data(cx)).await;
+                    }
+                    let mut out = Err("the peer's write never failed".to_string());
+                    for _ in 0..200 {
+                        match ptx.write_all(&[7u8; 500]).await {
+                            Ok(()) => tokio::time::sleep(Duration::from_millis(2)).await,
+                            Err(quinn::WriteError::Stopped(c)) if c.into_inner() == code => {
+                                out = Ok(());
+                                break;
+                            }
+                            Err(other) => {
+                                out = Err(format!("stop_sending({code:#x}) through the adapter; the peer's write gave {other:?}"));
+                                break;
+                            }
+                        }
+                    }
+                    out
+                }
+                ErrRow::OwnReset => {
+                    bi.reset(code);
+                    let mut buf = [0u8; 64];
+                    let mut out = Err("the peer's read never failed".to_string());
+                    for _ in 0..50 {
+                        match prx.read(&mut buf).await {
+                            Ok(Some(_)) => continue,
+                            Ok(None) => {
+                                out = Err(format!("reset({code:#x}) through the adapter; the peer saw a clean end of the stream"));
+                                break;
+                            }
+                            Err(quinn::ReadError::Reset(c)) if c.into_inner() == code => {
+                                out = Ok(());
+                                break;
+                            }
+                            Err(other) => {
+                                out = Err(format!("reset({code:#x}) through the adapter; the peer's read gave {other:?}"));
+                                break;
+                            }
+                        }
+                    }
+                    out
+                }
+                ErrRow::OwnClose => {
+                    <h3_quinn::Connection as OpenStreams<Bytes>>::close(&mut conn, h3::error::Code::from(code), b"the reason");
+                    match sc.closed().await {
+                        quinn::ConnectionError::ApplicationClosed(ac) if ac.error_code.into_inner() == code && ac.reason.as_ref() == b"the reason" => Ok(()),
+                        other => Err(format!("close({code:#x}, \"the reason\") through the adapter; the peer's connection ended with {other:?}")),
+                    }
+                }
                 _ => {
                     let _ = prx.stop(qcode);
                     // write until the stop is noticed
@@ -989,7 +1105,7 @@ fn exhaustive(ctx: &mut Ctx, shard: usize, nshards: usize) -> Verdict {
         }
     }
     for row in ROWS {
-        for code in [0u64, 0x100, 0x10c, (1 << 62) - 1] {
+        for code in [0u64, 0x100, 0x10c, 1 << 30, 0x52e4_a40f_a8db, (1 << 62) - 1] {
             if matches!(row, ErrRow::Timeout | ErrRow::TimeoutOnOpen) && code != 0 {
                 continue;
             }
@@ -1007,7 +1123,12 @@ fn exhaustive(ctx: &mut Ctx, shard: usize, nshards: usize) -> Verdict {
                 continue;
             }
             let frames = vec![FrameSpec::Headers(300), FrameSpec::Data(0), FrameSpec::Data(if wi == 0 { 300 } else { 70_000 }), FrameSpec::Grease, FrameSpec::Goaway(8), FrameSpec::TypedData(0x21, 10), FrameSpec::Raw(if wi == 0 { 50 } else { 5000 })];
-            run_write(&WriteCase { windows: w, bidi, frames, double_send: wi % 2 == 0 }, ctx)?;
+            run_write(&WriteCase { windows: w, bidi, frames: frames.clone(), double_send: wi % 2 == 0, early_finish: false }, ctx)?;
+            // the same without the trailing raw write, the last frame polled once only before the stream is finished
+            let mut frames = frames;
+            frames.pop();
+            frames.push(FrameSpec::Data(if wi == 0 { 300 } else { 70_000 }));
+            run_write(&WriteCase { windows: w, bidi, frames, double_send: false, early_finish: true }, ctx)?;
         }
     }
     if shard == 0 {
@@ -1051,7 +1172,7 @@ fn gen_write(t: &mut Tape) -> WriteCase {
             }
         })
         .collect();
-    WriteCase { windows: Windows { stream_rx, conn_rx, send }, bidi: t.bool(), frames, double_send: t.bool() }
+    WriteCase { windows: Windows { stream_rx, conn_rx, send }, bidi: t.bool(), frames, double_send: t.bool(), early_finish: t.chance(1, 3) }
 }
 
 fn run_tape(tape: &[u16], ctx: &mut Ctx) -> Verdict {
@@ -1060,7 +1181,7 @@ fn run_tape(tape: &[u16], ctx: &mut Ctx) -> Verdict {
         0 => run_id(ID_STATES[t.pick(8)], t.bool(), t.pick(3) as u64, t.bool(), ctx),
         2 | 3 => run_recv(&gen_recv(&mut t), ctx),
         1 => {
-            let row = ROWS[t.pick(8)];
+            let row = ROWS[t.pick(12)];
             let code = if matches!(row, ErrRow::Timeout | ErrRow::TimeoutOnOpen) { 0 } else { t.u64() >> 2 >> t.pick(62) };
             run_err(row, code, ctx)
         }
@@ -1119,7 +1240,7 @@ fn run_direct(d: &Value, ctx: &mut Ctx) -> Verdict {
                         .collect()
                 })
                 .unwrap_or_default();
-            run_write(&WriteCase { windows: Windows { stream_rx: w[0].as_u64().unwrap_or(1 << 20), conn_rx: w[1].as_u64().unwrap_or(1 << 20), send: w[2].as_u64().unwrap_or(1 << 20) }, bidi: d["bidi"].as_bool().unwrap_or(true), frames, double_send: d["double_send"].as_bool().unwrap_or(false) }, ctx)
+            run_write(&WriteCase { windows: Windows { stream_rx: w[0].as_u64().unwrap_or(1 << 20), conn_rx: w[1].as_u64().unwrap_or(1 << 20), send: w[2].as_u64().unwrap_or(1 << 20) }, bidi: d["bidi"].as_bool().unwrap_or(true), frames, double_send: d["double_send"].as_bool().unwrap_or(false), early_finish: d["early_finish"].as_bool().unwrap_or(false) }, ctx)
         }
         _ => Err(Failure::fault("unknown direct case")),
     }
